@@ -138,6 +138,7 @@ type walker struct {
 	other   map[string]int
 	guards  []string // accessor call texts known non-nil here
 	nilText map[string]bool
+	commaOk map[*ast.TypeAssertExpr]bool // `v, ok := x.(*T)`: yields (nil, false) on a nil x, never panics
 }
 
 func (w *walker) guarded(text string) bool {
@@ -211,7 +212,9 @@ func (w *walker) expr(x ast.Expr) {
 				w.record(v.X, r, acc)
 			}
 		case *ast.TypeAssertExpr:
-			if r, acc, ok := w.e.accessorCall(v.X); ok && v.Type != nil {
+			if w.commaOk[v] {
+				// the two-value form does not dereference its operand
+			} else if r, acc, ok := w.e.accessorCall(v.X); ok && v.Type != nil {
 				w.record(v.X, r, acc)
 			} else if v.Type != nil {
 				if c, ok := v.X.(*ast.CallExpr); ok {
@@ -369,6 +372,14 @@ func (w *walker) stmt(st ast.Stmt) {
 			}
 		}
 	case *ast.AssignStmt:
+		if len(s.Lhs) == 2 && len(s.Rhs) == 1 {
+			if ta, ok := s.Rhs[0].(*ast.TypeAssertExpr); ok && ta.Type != nil {
+				if w.commaOk == nil {
+					w.commaOk = map[*ast.TypeAssertExpr]bool{}
+				}
+				w.commaOk[ta] = true
+			}
+		}
 		for _, r := range s.Rhs {
 			w.expr(r)
 		}
